@@ -129,10 +129,11 @@ def C13_2(ctx, facts):
         if body is None:
             ctx.undecided("set_host_header|value", "value closure not found", c.where())
             continue
-        hs = body.calls("http::Uri::host", "http::uri::Uri::host")
-        pt = body.calls("service::host::get_non_default_port")
-        ctx.check(bool(hs) and bool(pt), "set_host_header|value-from-uri", "the value is uri.host() plus get_non_default_port(uri)", "value closure does not use uri.host() / get_non_default_port", body.where())
-        rets = body.roots({"l": 0, "p": []})
+        rets = facts.roots_up(body, {"l": 0, "p": []})
+        hs = [r for r in rets if r.kind == "call" and r.site.is_("http::Uri::host", "http::uri::Uri::host")]
+        pt = [r for r in rets if r.kind == "call" and r.site.is_("service::host::get_non_default_port")]
+        ctx.check(bool(hs) and bool(pt), "set_host_header|value-from-uri", "the value is built from uri.host() and get_non_default_port(uri)",
+                  "the header value does not derive from uri.host() / get_non_default_port: %s" % sorted(map(repr, sig(rets)))[:8], body.where())
         ctx.check(any(r.kind == "call" and r.site.matches(r"HeaderValue.*::from_str$") for r in rets), "set_host_header|value-is-header", "built with HeaderValue::from_str", "value not built by from_str", body.where())
     p = facts.fn("service::host::get_non_default_port")
     ctx.touched(p)
